@@ -79,13 +79,9 @@ theorem stepTail_names {cfg : Config} {mode : KeyMode} {inject : Option (List (S
   | stmt s => simp only [stepTail, pure, Except.pure] at h; cases h; exact ⟨ha.nodup, ha.perm⟩
   | case => simp [stepTail, throw_eq] at h
   | usepulses n =>
-    simp only [stepTail] at h
-    by_cases hau : cfg.autoload = true
-    · simp only [hau, if_true] at h
-      cases hi : cfg.imports n with
-      | none => simp [hi, throw_eq] at h
-      | some gs => simp [hi, pure, Except.pure] at h; rw [← h]; exact ⟨ha.nodup, ha.perm⟩
-    · simp only [hau] at h; cases h; exact ⟨ha.nodup, ha.perm⟩
+    rcases stepTail_usepulses_ok h with ⟨_, rfl⟩ | ⟨_, _, gs, _, rfl⟩
+    · exact ⟨ha.nodup, ha.perm⟩
+    · exact ⟨ha.nodup, ha.perm⟩
 
 theorem circuitLoop_names {cfg : Config} {mode : KeyMode} {inject : Option (List (String × GateDef))} {fuel : Nat} :
     ∀ (cs : List BSx) (acc a1 : Acc), NamesInv acc → circuitLoop cfg mode inject fuel acc cs = .ok a1 → NamesInv a1 := by
@@ -802,24 +798,15 @@ theorem stepTail_header {cfg : Config} {mode : KeyMode} {inject : Option (List (
       | (obtain ⟨c, _, h2⟩ := bind_ok h
          cases h2
          exact ⟨ha.memo, ha.stmts, ha.macros, ha.gctx, ha.nat⟩)
-  · simp only [stepTail] at h
-    by_cases hau : cfg.autoload = true
-    · simp only [hau, if_true] at h
-      cases hi : cfg.imports n with
-      | none => simp [hi, throw_eq] at h
-      | some gs =>
-        simp [hi, pure, Except.pure] at h
-        rw [← h]
-        refine ⟨?_, ha.stmts, ha.macros, ?_, updateGates_natOK inject gs _ ha.nat⟩
-        · show (if mode = KeyMode.noReset then acc.st.memo else []) = []
-          split
-          · exact ha.memo
-          · rfl
-        · simp only []
-          rw [ha.gctx, updateGates_map]
-    · simp only [hau] at h
-      cases h
-      exact ⟨ha.memo, ha.stmts, ha.macros, ha.gctx, ha.nat⟩
+  · rcases stepTail_usepulses_ok h with ⟨_, rfl⟩ | ⟨_, _, gs, _, rfl⟩
+    · exact ⟨ha.memo, ha.stmts, ha.macros, ha.gctx, ha.nat⟩
+    · refine ⟨?_, ha.stmts, ha.macros, ?_, updateGates_natOK inject gs _ ha.nat⟩
+      · show (if mode = KeyMode.noReset then acc.st.memo else []) = []
+        split
+        · exact ha.memo
+        · rfl
+      · simp only []
+        rw [ha.gctx, updateGates_map]
 
 theorem circuitLoop_header {cfg : Config} {mode : KeyMode} {inject : Option (List (String × GateDef))} {fuel : Nat} :
     ∀ (cs : List BSx) (acc a1 : Acc), HInv acc → (∀ c ∈ cs, headerChild c = true) →
@@ -1004,6 +991,218 @@ theorem circuitLoop_body {cfg : Config} {mode : KeyMode} {inject : Option (List 
       have h2 := bodyChild_notUse (hcs c (by simp))
       simp [notUse, h1] at h2
     exact ih a2 a1 (stepTail_body ha hpost hnu h3) (fun d hd => hcs d (by simp [hd])) h2
+
+
+
+/-- an expression that is built to a value or to a `usepulses` statement leaves the builder's state alone -/
+theorem anyStep_pure_obj {cfg : Config} {mode : KeyMode} {recA : Ctx → BSx → St → M (Obj × St)} {recV : BSx → M Val}
+    {ctx : Ctx} {l : List BSx} {st s1 : St} {o : Obj}
+    (h : anyStep cfg mode recA recV ctx l st = .ok (o, s1))
+    (ho : (∃ v, o = .val v) ∨ ∃ n, o = .usepulses n) : s1 = st := by
+  have hno : ∀ {P : Prop} (s : Stmt), o = Obj.stmt s → P := by
+    intro P s hs; rcases ho with ⟨v, hv⟩ | ⟨n, hn⟩ <;> (rw [hs] at *; first | cases hv | cases hn)
+  have hnom : ∀ {P : Prop} (m : Macro), o = Obj.macro m → P := by
+    intro P m hs; rcases ho with ⟨v, hv⟩ | ⟨n, hn⟩ <;> (rw [hs] at *; first | cases hv | cases hn)
+  have hnoc : ∀ {P : Prop}, o = Obj.case → P := by
+    intro P hs; rcases ho with ⟨v, hv⟩ | ⟨n, hn⟩ <;> (rw [hs] at *; first | cases hv | cases hn)
+  unfold anyStep at h
+  match l, h with
+  | [], h => simp [throw_eq] at h
+  | .str cmd :: args, h =>
+    by_cases h1 : cmd = "gate"
+    · simp only [h1, if_true] at h
+      obtain ⟨a, _, h2⟩ := bind_ok h
+      simp only [pure, Except.pure, Except.ok.injEq, Prod.mk.injEq] at h2
+      exact hno _ h2.1.symm
+    simp only [h1, if_false] at h
+    by_cases h2 : cmd = "sequential_block" ∨ cmd = "block"
+    · simp only [h2, if_true] at h
+      obtain ⟨a, _, h2⟩ := bind_ok h
+      obtain ⟨b, _, h3⟩ := bind_ok h2
+      simp only [pure, Except.pure, Except.ok.injEq, Prod.mk.injEq] at h3
+      exact hno _ h3.1.symm
+    simp only [h2, if_false] at h
+    by_cases h3 : cmd = "parallel_block"
+    · simp only [h3, if_true] at h
+      obtain ⟨a, _, h2⟩ := bind_ok h
+      obtain ⟨b, _, h3⟩ := bind_ok h2
+      simp only [pure, Except.pure, Except.ok.injEq, Prod.mk.injEq] at h3
+      exact hno _ h3.1.symm
+    simp only [h3, if_false] at h
+    by_cases h4 : cmd = "unscheduled_block"
+    · simp only [h4, if_true] at h
+      obtain ⟨a, _, h2⟩ := bind_ok h
+      obtain ⟨b, _, h3⟩ := bind_ok h2
+      simp only [pure, Except.pure, Except.ok.injEq, Prod.mk.injEq] at h3
+      exact hno _ h3.1.symm
+    simp only [h4, if_false] at h
+    by_cases h5 : cmd = "subcircuit_block"
+    · simp only [h5, if_true] at h
+      split at h
+      · simp [throw_eq] at h
+      · obtain ⟨a, _, h2⟩ := bind_ok h
+        split at h2
+        · simp [throw_eq] at h2
+        · obtain ⟨b, _, h3⟩ := bind_ok h2
+          obtain ⟨c, _, h4⟩ := bind_ok h3
+          obtain ⟨d, _, h5⟩ := bind_ok h4
+          simp only [pure, Except.pure, Except.ok.injEq, Prod.mk.injEq] at h5
+          exact hno _ h5.1.symm
+    simp only [h5, if_false] at h
+    by_cases h6 : cmd = "loop"
+    · simp only [h6, if_true] at h
+      split at h
+      · obtain ⟨a, _, h2⟩ := bind_ok h
+        obtain ⟨b, _, h3⟩ := bind_ok h2
+        split at h3
+        · obtain ⟨c, _, h4⟩ := bind_ok h3
+          simp only [pure, Except.pure, Except.ok.injEq, Prod.mk.injEq] at h4
+          exact hno _ h4.1.symm
+        · obtain ⟨c, _, h4⟩ := bind_ok h3
+          simp only [pure, Except.pure, Except.ok.injEq, Prod.mk.injEq] at h4
+          exact hno _ h4.1.symm
+        · simp [throw_eq] at h3
+      · simp [throw_eq] at h
+    simp only [h6, if_false] at h
+    by_cases h7 : cmd = "case"
+    · simp only [h7, if_true] at h
+      split at h
+      · obtain ⟨a, _, h2⟩ := bind_ok h
+        obtain ⟨b, _, h3⟩ := bind_ok h2
+        simp only [pure, Except.pure, Except.ok.injEq, Prod.mk.injEq] at h3
+        exact hnoc h3.1.symm
+      · simp [throw_eq] at h
+    simp only [h7, if_false] at h
+    by_cases h8 : cmd = "branch"
+    · simp only [h8, if_true] at h
+      obtain ⟨a, _, h2⟩ := bind_ok h
+      simp [throw_eq] at h2
+    simp only [h8, if_false] at h
+    by_cases h9 : cmd = "macro"
+    · simp only [h9, if_true] at h
+      split at h
+      · simp [throw_eq] at h
+      · split at h
+        · obtain ⟨a, _, h2⟩ := bind_ok h
+          split at h2
+          · simp [throw_eq, bind, Except.bind] at h2
+          · obtain ⟨b, _, h3⟩ := bind_ok h2
+            split at h3
+            · simp [throw_eq] at h3
+            · obtain ⟨c, _, h4⟩ := bind_ok h3
+              split at h4
+              · simp only [pure, Except.pure, Except.ok.injEq, Prod.mk.injEq] at h4
+                exact hnom _ h4.1.symm
+              · simp [throw_eq] at h4
+        · simp [throw_eq] at h
+    simp only [h9, if_false] at h
+    by_cases h10 : cmd = "usepulses"
+    · simp only [h10, if_true] at h
+      split at h
+      · split at h
+        · simp [throw_eq, bind, Except.bind] at h
+        · split at h
+          · cases h; rfl
+          · simp [throw_eq] at h
+      · simp [throw_eq] at h
+    simp only [h10, if_false] at h
+    by_cases h11 : cmd = "circuit"
+    · simp [h11, throw_eq] at h
+    simp only [h11, if_false] at h
+    obtain ⟨a, _, h2⟩ := bind_ok h
+    cases h2; rfl
+  | .int _ :: _, h | .flt _ :: _, h | .none :: _, h | .list _ :: _, h | .val _ :: _, h => simp [throw_eq] at h
+
+theorem buildAny_pure_obj {cfg : Config} {mode : KeyMode} {f : Nat} {ctx : Ctx} {c : BSx} {st s1 : St} {o : Obj}
+    (h : buildAny cfg mode f ctx c st = .ok (o, s1)) (ho : (∃ v, o = .val v) ∨ ∃ n, o = .usepulses n) : s1 = st := by
+  cases c with
+  | list l =>
+    cases f with
+    | zero => simp [buildAny, throw_eq] at h
+    | succ f => exact anyStep_pure_obj (show anyStep cfg mode (buildAny cfg mode f) (buildVal ctx f) ctx l st = _ from h) ho
+  | _ =>
+    rw [buildAny_atom _ _ _ _ _ _ (by intro l; simp)] at h
+    obtain ⟨a, _, h2⟩ := bind_ok h
+    cases h2; rfl
+
+
+/-! ### The gate-table invariant for arbitrary S-expressions (`mode ≠ noReset`): pulse definitions can only be loaded
+while no statement and no macro has been built, i.e. while the gate context still is the native-gate table -/
+
+structure GInv (cfg : Config) (acc : Acc) : Prop where
+  b : BInv cfg acc
+  h : acc.stmts = [] → acc.macros = [] → HInv acc
+
+theorem stepTail_general {cfg : Config} {mode : KeyMode} (hmode : mode ≠ .noReset)
+    {inject : Option (List (String × GateDef))} {acc a1 : Acc} {o : Obj} {st : St}
+    (ha : GInv cfg acc) (hp : KPost cfg acc.st o st)
+    (hpure : ((∃ v, o = .val v) ∨ ∃ n, o = .usepulses n) → st = acc.st)
+    (h : stepTail cfg mode inject acc o st = .ok a1) : GInv cfg a1 := by
+  by_cases hu : ∃ n, o = .usepulses n
+  · obtain ⟨n, rfl⟩ := hu
+    have hst := hpure (Or.inr ⟨n, rfl⟩)
+    subst hst
+    rcases stepTail_usepulses_ok h with ⟨_, rfl⟩ | ⟨_, hempty, gs, _, rfl⟩
+    · refine ⟨⟨ha.b.k, ha.b.stmts, ha.b.macros, ha.b.shape, ha.b.nat, ha.b.mnames, ha.b.bound⟩, ?_⟩
+      intro h1 h2
+      have := ha.h h1 h2
+      exact ⟨this.memo, this.stmts, this.macros, this.gctx, this.nat⟩
+    · obtain ⟨h1, h2⟩ := hempty hmode
+      have hH := ha.h h1 h2
+      have hH' : HInv { acc with st := { memo := if mode = .noReset then acc.st.memo else [],
+                                          gctx := updateGates GEntry.gdef inject gs acc.st.gctx },
+                                 usepulses := acc.usepulses ++ [n],
+                                 natives := updateGates id inject gs acc.natives } := by
+        refine ⟨?_, hH.stmts, hH.macros, ?_, updateGates_natOK inject gs _ hH.nat⟩
+        · show (if mode = KeyMode.noReset then acc.st.memo else []) = []
+          split
+          · exact hH.memo
+          · rfl
+        · simp only []
+          rw [hH.gctx, updateGates_map]
+      exact ⟨hH'.toBInv, fun _ _ => hH'⟩
+  · have hnu : ∀ n, o ≠ .usepulses n := fun n hn => hu ⟨n, hn⟩
+    refine ⟨stepTail_body ha.b hp hnu h, ?_⟩
+    intro h1 h2
+    -- only a value leaves both lists empty
+    cases o with
+    | val v =>
+      have hst := hpure (Or.inl ⟨v, rfl⟩)
+      subst hst
+      have hs0 : a1.stmts = acc.stmts ∧ a1.macros = acc.macros := by
+        cases v <;> simp only [stepTail, throw_eq] at h <;> first
+          | cases h
+          | (obtain ⟨c, _, h2'⟩ := bind_ok h; cases h2'; exact ⟨rfl, rfl⟩)
+      exact stepTail_header (ha.h (hs0.1 ▸ h1) (hs0.2 ▸ h2)) (Or.inl ⟨v, rfl⟩) h
+    | «macro» m =>
+      simp only [stepTail] at h
+      obtain ⟨m', _, h3⟩ := bind_ok h
+      by_cases hl : (List.lookup m'.name st.gctx).isSome = true
+      · simp [hl, throw_eq, bind, Except.bind] at h3
+      · simp [hl, pure, Except.pure] at h3
+        rw [← h3] at h2
+        simp at h2
+    | stmt s =>
+      simp only [stepTail, pure, Except.pure] at h
+      cases h
+      simp at h1
+    | case => simp [stepTail, throw_eq] at h
+    | usepulses n => exact absurd rfl (hnu n)
+
+theorem circuitLoop_general {cfg : Config} {mode : KeyMode} (hmode : mode ≠ .noReset)
+    {inject : Option (List (String × GateDef))} {fuel : Nat} :
+    ∀ (cs : List BSx) (acc a1 : Acc), GInv cfg acc → circuitLoop cfg mode inject fuel acc cs = .ok a1 → GInv cfg a1 := by
+  intro cs
+  induction cs with
+  | nil => intro acc a1 ha h; simp only [circuitLoop, pure, Except.pure] at h; cases h; exact ha
+  | cons c cs ih =>
+    intro acc a1 ha h
+    simp only [circuitLoop, circuitStep] at h
+    obtain ⟨a2, hstep, h2⟩ := bind_ok h
+    obtain ⟨p, hp, h3⟩ := bind_ok hstep
+    obtain ⟨o, st⟩ := p
+    have hpost := buildAny_known fuel acc.ctx c acc.st st o ha.b.k hp
+    exact ih a2 a1 (stepTail_general hmode ha hpost (fun ho => buildAny_pure_obj hp ho) h3) h2
 
 
 end Jaqal.Builder
